@@ -1,186 +1,4 @@
-// ---- leftmost kinds, OPTIMALITY half of C03 / C04: the candidate the NFA-level leftmost scan ends with is the occurrence of a registered
-// pattern with the smallest start in the rest of the haystack and, among those with that start, the longest.  From the pass contract:
-// lm_fail_ok (a live link is the longest proper suffix node), lm_dead_ok (a link is dead exactly if falling back would lose an occurrence
-// already seen) and opos_inherit (own record, or the output position of the fail target). ----
-#[verifier::opaque]
-spec fn optctx<V>(n: NfaBuilder<u8, V>) -> bool { pctx(n) && nfa_links(n, true) && lm_fail_ok(n) && lm_dead_ok(n) && opos_inherit(n) && nfa_outs_ok(n) }
-proof fn w_opt<V>(n: NfaBuilder<u8, V>, s: int)
-    requires optctx(n), 0 <= s < n.states@.len(), s != 1,
-    ensures pctx(n), n.states@[0].output_pos.is_none(), n.states@[1].output_pos.is_none(), opt_n(n.states@[s].output_pos) <= n.outputs@.len(),
-        s >= 2 ==> inh_at(n, n, s) && ((n.states@[s].fail == 1) <==> dead_sem(n, s))
-            && (n.states@[s].fail != 1 ==> fail_ok(n, s, n.states@[s].fail as int) && 0 <= n.states@[s].fail < n.states@.len()
-                    && nfa_depth(n, n.states@[s].fail as int) < nfa_depth(n, s)),
-        forall|c: u8| #[trigger] nfa_nd_lm(n, s, c) == (if nfa_edges(n, s).contains_key(c) { nfa_edges(n, s)[c] as int } else if s == 0 || n.states@[s].fail == 1 { 0 } else { nfa_nd_lm(n, n.states@[s].fail as int, c) }),
-{
-    reveal(optctx);
-    if s >= 2 {
-        lemma_opos_inherit_get(n, s);
-        lemma_lm_dead_get(n, s);
-        if n.states@[s].fail != 1 { lemma_fail_ok_facts(n, s, n.states@[s].fail as int); }
-    } else { reveal(opos_inherit); }
-    assert(nfa_tree(n)) by { reveal(pctx); }
-}
-// s is the state of the longest suffix of x that is a trie node
-spec fn lsn<V>(n: NfaBuilder<u8, V>, s: int, x: Seq<u8>) -> bool {
-    &&& 0 <= s < n.states@.len() && s != 1 && is_suffix(path(n, s), x)
-    &&& forall|q: Seq<u8>| is_suffix(q, x) && #[trigger] t_node(n, q) ==> q.len() <= path(n, s).len()
-}
-// no suffix of x longer than k can be extended by c inside the trie
-spec fn cmax_x<V>(n: NfaBuilder<u8, V>, x: Seq<u8>, c: u8, k: int) -> bool {
-    forall|q1: Seq<u8>| is_suffix(q1, x) && #[trigger] t_node(n, q1.push(c)) ==> q1.len() <= k
-}
-// every suffix of x that could still be extended by c starts after an occurrence already seen
-spec fn ext_lost<V>(n: NfaBuilder<u8, V>, x: Seq<u8>, c: u8) -> bool {
-    forall|v: Seq<u8>| is_suffix(v, x) && #[trigger] t_node(n, v.push(c)) ==> exists|st0: int, len0: int| #[trigger] occ(n, x, st0, len0) && st0 < x.len() - v.len()
-}
-// every occurrence that ends where x2 ends starts after an occurrence that ended earlier
-spec fn new_beaten<V>(n: NfaBuilder<u8, V>, x2: Seq<u8>) -> bool {
-    forall|st2: int, len2: int| #[trigger] occ(n, x2, st2, len2) && st2 + len2 == x2.len() ==> exists|st0: int, len0: int| #[trigger] occ(n, x2, st0, len0) && st0 + len0 < x2.len() && st0 < st2
-}
-// (st, len) is the leftmost occurrence inside x and the longest one at that start
-spec fn best<V>(n: NfaBuilder<u8, V>, x: Seq<u8>, st: int, len: int) -> bool {
-    &&& occ(n, x, st, len)
-    &&& forall|st2: int, len2: int| #[trigger] occ(n, x, st2, len2) ==> st < st2 || (st == st2 && len2 <= len)
-}
-proof fn lemma_prefix_node<V>(n: NfaBuilder<u8, V>, q: Seq<u8>, k: int)
-    requires t_node(n, q), 0 <= k <= q.len(),
-    ensures t_node(n, q.take(k)),
-    decreases q.len() - k,
-{
-    if k < q.len() {
-        lemma_prefix_node(n, q, k + 1);
-        lemma_node_prefix(n, q.take(k + 1));
-        assert(q.take(k + 1).drop_last() =~= q.take(k));
-    } else { assert(q.take(k) =~= q); }
-}
-// the leftmost transition from a state on the fail chain of the current state
-proof fn lemma_lm_trans<V>(n: NfaBuilder<u8, V>, x: Seq<u8>, u: int, c: u8)
-    requires optctx(n), 0 <= u < n.states@.len(), u != 1, is_suffix(path(n, u), x), within(n, x, path(n, u).len() as int), cmax_x(n, x, c, path(n, u).len() as int),
-    ensures ({ let r = nfa_nd_lm(n, u, c); let x2 = x.push(c);
-        &&& 0 <= r < n.states@.len() && r != 1
-        &&& r != 0 ==> lsn(n, r, x2) && within(n, x2, path(n, r).len() as int)
-        &&& r == 0 ==> ext_lost(n, x, c) }),
-    decreases nfa_depth(n, u),
-{
-    w_opt(n, u);
-    let x2 = x.push(c); let xu = path(n, u);
-    if nfa_edges(n, u).contains_key(c) {
-        let r = nfa_edges(n, u)[c] as int;
-        lemma_path_child(n, u, c);
-        lemma_suffix_push(xu, x, c);
-        assert forall|q: Seq<u8>| is_suffix(q, x2) && #[trigger] t_node(n, q) implies q.len() <= path(n, r).len() by {
-            if q.len() > 0 {
-                lemma_suffix_drop(q, x, c);
-                assert(q.drop_last().push(c) =~= q);
-                assert(t_node(n, q.drop_last().push(c)));
-            }
-        }
-        assert(lsn(n, r, x2));
-        assert forall|st: int, len: int| #[trigger] occ(n, x2, st, len) implies st >= x2.len() - path(n, r).len() by {
-            if st + len <= x.len() {
-                assert(x2.subrange(st, st + len) =~= x.subrange(st, st + len));
-                assert(occ(n, x, st, len));
-            } else {
-                let pq = x2.subrange(st, st + len);
-                assert(pq =~= x2.skip(x2.len() - pq.len()));
-                assert(is_suffix(pq, x2));
-                assert(t_node(n, pq));
-            }
-        }
-    } else if u == 0 {
-        assert(xu.len() == 0);
-        lemma_no_edge_no_node(n, 0, c);
-        assert forall|v: Seq<u8>| is_suffix(v, x) && #[trigger] t_node(n, v.push(c)) implies exists|st0: int, len0: int| #[trigger] occ(n, x, st0, len0) && st0 < x.len() - v.len() by {
-            assert(v.len() <= 0);
-            assert(v =~= xu);
-            assert(false);
-        }
-    } else if n.states@[u].fail == 1 {
-        lemma_no_edge_no_node(n, u, c);
-        let (st1, len1) = choose|st1: int, len1: int| #[trigger] dead_wit(n, u, st1, len1);
-        let o = x.len() - xu.len();
-        assert(x.subrange(o + st1, o + st1 + len1) =~= xu.subrange(st1, st1 + len1));
-        assert(occ(n, x, o + st1, len1));
-        assert forall|v: Seq<u8>| is_suffix(v, x) && #[trigger] t_node(n, v.push(c)) implies exists|st0: int, len0: int| #[trigger] occ(n, x, st0, len0) && st0 < x.len() - v.len() by {
-            assert(v.len() <= xu.len());
-            if v.len() == xu.len() { assert(v =~= xu); assert(false); }
-            lemma_suffix_of_suffix(v, xu, x);
-            lemma_node_prefix(n, v.push(c));
-            assert(v.push(c).drop_last() =~= v);
-            assert(t_node(n, v));
-            assert(st1 < xu.len() - v.len());
-            assert(occ(n, x, o + st1, len1) && o + st1 < x.len() - v.len());
-        }
-    } else {
-        let g = n.states@[u].fail as int;
-        lemma_no_edge_no_node(n, u, c);
-        lemma_within_step(n, x, u, g);
-        lemma_suffix_trans(path(n, g), xu, x);
-        assert forall|q1: Seq<u8>| is_suffix(q1, x) && #[trigger] t_node(n, q1.push(c)) implies q1.len() <= path(n, g).len() by {
-            assert(q1.len() <= xu.len());
-            if q1.len() == xu.len() { assert(q1 =~= xu); assert(false); }
-            lemma_suffix_of_suffix(q1, xu, x);
-            lemma_node_prefix(n, q1.push(c));
-            assert(q1.push(c).drop_last() =~= q1);
-            assert(t_node(n, q1));
-        }
-        lemma_lm_trans(n, x, g, c);
-    }
-}
-// what the output position of the state reached says about the occurrences inside x2
-proof fn lemma_lm_opos<V>(n: NfaBuilder<u8, V>, x2: Seq<u8>, v: int)
-    requires optctx(n), 0 <= v < n.states@.len(), v != 1, is_suffix(path(n, v), x2), within(n, x2, path(n, v).len() as int),
-    ensures ({ let o = opt_n(n.states@[v].output_pos);
-        &&& o <= n.outputs@.len()
-        &&& o != 0 ==> exists|q: Seq<u8>| is_suffix(q, x2) && #[trigger] rec_of(n, q, n.outputs@[o - 1]) && q.len() > 0 && within(n, x2, q.len() as int)
-        &&& o == 0 ==> new_beaten(n, x2) }),
-    decreases nfa_depth(n, v),
-{
-    w_opt(n, v);
-    let xv = path(n, v);
-    let o = opt_n(n.states@[v].output_pos);
-    if v == 0 {
-        assert(xv.len() == 0);
-    } else {
-        lemma_depth_is_path_len(n, v);
-        let pp = nfa_parent(n, v);
-        assert(nfa_parent_ok(n, v, pp)) by { reveal(pctx); }
-        lemma_path_child(n, pp.0, pp.1);
-        assert(xv.len() > 0);
-        match n.states@[v].output {
-            Some(xo) => {
-                assert(is_registered(n, xv));
-                assert(reg_out(n, xv) == Some(xo));
-                assert(rec_of(n, xv, n.outputs@[o - 1]));
-            }
-            None => {
-                let f = n.states@[v].fail as int;
-                if f == 1 {
-                    assert(o == 0);
-                    let (st1, len1) = choose|st1: int, len1: int| #[trigger] dead_wit(n, v, st1, len1);
-                    let off = x2.len() - xv.len();
-                    assert(x2.subrange(off + st1, off + st1 + len1) =~= xv.subrange(st1, st1 + len1));
-                    assert(occ(n, x2, off + st1, len1));
-                    if st1 + len1 == xv.len() { lemma_wit_suffix(n, v, st1, len1); }
-                    assert forall|st2: int, len2: int| #[trigger] occ(n, x2, st2, len2) && st2 + len2 == x2.len() implies exists|st0: int, len0: int| #[trigger] occ(n, x2, st0, len0) && st0 + len0 < x2.len() && st0 < st2 by {
-                        assert(st2 >= off);
-                        let pq = x2.subrange(st2, st2 + len2);
-                        assert(pq =~= xv.skip(xv.len() - pq.len()));
-                        assert(is_suffix(pq, xv));
-                        assert(t_node(n, pq));
-                        if st2 == off { assert(pq =~= xv); assert(false); }
-                        assert(st1 < xv.len() - pq.len());
-                        assert(occ(n, x2, off + st1, len1) && off + st1 + len1 < x2.len() && off + st1 < st2);
-                    }
-                } else {
-                    lemma_within_step(n, x2, v, f);
-                    lemma_suffix_trans(path(n, f), xv, x2);
-                    lemma_lm_opos(n, x2, f);
-                }
-            }
-        }
-    }
-}
+//@include ghost_lm_opt_core.rs
 // the candidate of a scan that started at pos and has read hay[pos..p]
 spec fn cand_best<V>(n: NfaBuilder<u8, V>, hay: Seq<u8>, pos: nat, p: nat, last: Option<(nat, nat)>) -> bool {
     let x = hay.subrange(pos as int, p as int);
@@ -241,29 +59,7 @@ proof fn lemma_lm_scan_opt<V>(n: NfaBuilder<u8, V>, s: int, last: Option<(nat, n
                     lemma_stop_best(n, hay, pos, p, ce.1 - pos - q.len(), q.len() as int);
                 }
                 None => {
-                    assert forall|v: Seq<u8>| is_suffix(v, x) implies !#[trigger] t_node(n, v.push(c)) by { }
-                    assert(path(n, 0).len() == 0);
-                    w_opt(n, 0);
-                    assert(is_suffix(path(n, 0), x2));
-                    assert forall|q: Seq<u8>| is_suffix(q, x2) && #[trigger] t_node(n, q) implies q.len() <= 0 by {
-                        if q.len() > 0 {
-                            lemma_suffix_drop(q, x, c);
-                            assert(q.drop_last().push(c) =~= q);
-                            assert(t_node(n, q.drop_last().push(c)));
-                        }
-                    }
-                    assert forall|st: int, len: int| !#[trigger] occ(n, x2, st, len) by {
-                        if occ(n, x2, st, len) {
-                            if st + len <= x.len() {
-                                assert(x2.subrange(st, st + len) =~= x.subrange(st, st + len));
-                                assert(occ(n, x, st, len));
-                            } else {
-                                let pq = x2.subrange(st, st + len);
-                                assert(pq =~= x2.skip(x2.len() - pq.len()));
-                                assert(is_suffix(pq, x2) && t_node(n, pq));
-                            }
-                        }
-                    }
+                    lemma_none_root(n, x, c);
                     lemma_lm_scan_opt(n, 0, None, hay, pos, p + 1);
                 }
             }
@@ -279,35 +75,12 @@ proof fn lemma_lm_scan_opt<V>(n: NfaBuilder<u8, V>, s: int, last: Option<(nat, n
                 lemma_lm_scan_opt(n, t, Some((o, (p + 1) as nat)), hay, pos, p + 1);
             } else {
                 match last {
-                    None => {
-                        assert forall|st: int, len: int| !#[trigger] occ(n, x2, st, len) by {
-                            if occ(n, x2, st, len) {
-                                if st + len <= x.len() {
-                                    assert(x2.subrange(st, st + len) =~= x.subrange(st, st + len));
-                                    assert(occ(n, x, st, len));
-                                } else {
-                                    let (st0, len0) = choose|st0: int, len0: int| #[trigger] occ(n, x2, st0, len0) && st0 + len0 < x2.len() && st0 < st;
-                                    assert(x2.subrange(st0, st0 + len0) =~= x.subrange(st0, st0 + len0));
-                                    assert(occ(n, x, st0, len0));
-                                }
-                            }
-                        }
-                    }
+                    None => { lemma_none_keep(n, x, c); }
                     Some(ce) => {
                         let q = choose|q: Seq<u8>| #[trigger] rec_of(n, q, n.outputs@[ce.0 - 1]) && 0 < q.len() <= ce.1 - pos
                             && hay.subrange(ce.1 - q.len(), ce.1 as int) == q && best(n, x, ce.1 - pos - q.len(), q.len() as int);
                         let st = ce.1 - pos - q.len(); let len = q.len() as int;
-                        assert(x2.subrange(st, st + len) =~= x.subrange(st, st + len));
-                        assert forall|st2: int, len2: int| #[trigger] occ(n, x2, st2, len2) implies st < st2 || (st == st2 && len2 <= len) by {
-                            if st2 + len2 <= x.len() {
-                                assert(x2.subrange(st2, st2 + len2) =~= x.subrange(st2, st2 + len2));
-                                assert(occ(n, x, st2, len2));
-                            } else {
-                                let (st0, len0) = choose|st0: int, len0: int| #[trigger] occ(n, x2, st0, len0) && st0 + len0 < x2.len() && st0 < st2;
-                                assert(x2.subrange(st0, st0 + len0) =~= x.subrange(st0, st0 + len0));
-                                assert(occ(n, x, st0, len0));
-                            }
-                        }
+                        lemma_best_keep(n, x, c, st, len);
                         assert(best(n, x2, st, len));
                         assert(cand_best(n, hay, pos, (p + 1) as nat, last));
                     }
